@@ -496,3 +496,66 @@ Proof.
       split; [eapply wgood_trans; eassumption|]. destruct KF as (_ & G3 & _). cbn [w_dst w_set_dst] in G3.
       eapply cp_ok_grows; eassumption.
 Qed.
+
+Theorem canon_all c fx : cfg_strict c = true -> cx_complist fx = true ->
+  forall f, P_fill c fx f /\ P_ptr c fx f /\ P_list c fx f.
+Proof.
+  intros Hc Hcl. induction f as [|f (IHf & IHp & IHl)].
+  - split; [|split]; intros ?; intros; exact I.
+  - split; [apply fill_step; assumption|]. split; [apply ptr_step; assumption|apply list_step; assumption].
+Qed.
+
+Lemma set_root_safe w root : dok (w_dst w) -> 0 <= w_src_rl w -> cp_ok (w_dst w) root ->
+  rpost w (set_root 4 w InDst root).
+Proof.
+  intros Hd Hr Hcp. unfold set_root, set_root_gen. cbv zeta.
+  destruct (bm_segs (w_dst w)) as [|s0 rest] eqn:Es; [exact I|].
+  destruct (regionInBounds (bs_data s0) 0 8) eqn:Er; cbn [negb]; [|exact I].
+  apply regionInBounds_spec in Er.
+  apply write_ptr_nocopy_safe; auto. unfold region_ok, nsegs, mem, get_seg. rewrite Es.
+  cbn [nth Z.to_nat]. unfold zlen at 1. cbn [length]. split; [lia|]. split; [lia|]. change (Z.to_nat 0) with 0%nat. cbn [nth]. lia.
+Qed.
+
+Lemma new_single_dok : exists m0, new_message ASingle [] 0 = Ok m0 /\ dok m0 /\ nsegs m0 = 1.
+Proof.
+  eexists. split; [vm_compute; reflexivity|]. split; [|reflexivity].
+  split; [split|].
+  - repeat constructor; cbn; lia.
+  - intros _. reflexivity.
+  - intros i. unfold mem, get_seg. cbn. destruct (Z.to_nat i) as [|[|n]]; cbn; unfold maxSegmentSize; lia.
+Qed.
+
+(* canon_m_safe, part 1: Canonicalize on an arbitrary source struct never panics (repaired
+   configuration), and the source's traversal budget only goes down and stays >= 0.  Any fuel. *)
+Theorem canonicalize_safe c fx fuel src rl s :
+  cfg_strict c = true -> cx_complist fx = true -> msg_ok src -> wf_struct src s -> 0 <= rl ->
+  fst (canonicalize c fx fuel src rl s) <> KPanic /\ 0 <= snd (canonicalize c fx fuel src rl s) <= rl.
+Proof.
+  intros Hc Hcl Hm Hs Hr. unfold canonicalize.
+  destruct new_single_dok as (m0 & -> & D0 & N0).
+  destruct (p_valid s) eqn:V; cbn [negb]; [|cbn; split; [discriminate|lia]].
+  set (w0 := mkW m0 src rl).
+  pose proof (canonicalStructSize_safe (cx_farnull fx) (cfg_strict c) src s Hm Hs) as CS.
+  destruct (canonicalStructSize _ _ src s) as [sz| |]; cbn [of_res kbind res_sat] in *;
+    [|cbn; split; [discriminate|lia]|destruct CS].
+  pose proof (newStruct_safe m0 0 sz D0 ltac:(lia) CS) as NS.
+  destruct (newStruct m0 0 sz) as [[m1 root]| |]; cbn [lift bind of_res kbind];
+    [|cbn; split; [discriminate|lia]|destruct NS].
+  destruct NS as (D1 & G1 & Do1 & Cp1 & K1 & _).
+  pose proof (set_root_safe (w_set_dst w0 m1) root D1 Hr Cp1) as R1.
+  destruct (set_root 4 (w_set_dst w0 m1) InDst root) as [w2| |]; cbn [of_res kbind rpost] in *;
+    [|cbn; split; [discriminate|lia]|destruct R1].
+  destruct R1 as (D2 & G2 & S2 & Rl2). cbn [w_dst w_set_dst w_src w_src_rl w0] in *.
+  pose proof (set_root_safe w2 root D2 ltac:(lia) (cp_ok_grows _ _ _ G2 Cp1)) as R2.
+  destruct (set_root 4 w2 InDst root) as [w3| |]; cbn [of_res kbind rpost] in *;
+    [|cbn; split; [discriminate|lia]|destruct R2].
+  destruct R2 as (D3 & G3 & S3 & Rl3).
+  destruct (canon_all c fx Hc Hcl fuel) as (PF & _ & _).
+  pose proof (PF w3 root s D3 ltac:(rewrite S3, S2; exact Hm) ltac:(lia)
+                ltac:(destruct Do1 as (A & B & C0); split; [exact A|split; [exact B|]];
+                      eapply region_grows; [exact G3|]; eapply region_grows; [exact G2|exact C0])
+                ltac:(rewrite S3, S2; exact Hs) V) as FC.
+  destruct (fill_canonical c fx fuel w3 root s) as [w4| | |]; cbn [kpostw fst snd] in *;
+    try (split; [discriminate|lia]); [|destruct FC].
+  destruct FC as (_ & _ & _ & Rl4). split; [discriminate|lia].
+Qed.
